@@ -276,12 +276,20 @@ class TypeDef:
         for t in self.traits:
             out.append("#[educe(%s)]" % t)
         out += self.attr_src
+        # `via_macro`: the definition is the output of a macro_rules! macro whose `$t:ty` fragments are the field types, so
+        # that the derive sees every field type inside a None-delimited group (`syn::Type::Group`). Not for the bare form
+        # (the in-process expansion parses the item directly).
+        macro_tys = [] if (getattr(self, "via_macro", False) and not bare) else None
+        head_len = len(out)
 
         def fields_src(v):
             parts = []
             for f in v.fields:
                 a = "".join(x + "\n" for x in f.attr_src)
                 ty = getattr(f, "ty_src", f.ty)
+                if macro_tys is not None:
+                    macro_tys.append(ty)
+                    ty = "$t%d" % (len(macro_tys) - 1)
                 if v.shape == "named":
                     parts.append("%s pub %s: %s" % (a, f.name, ty))
                 else:
@@ -314,6 +322,10 @@ class TypeDef:
                 else:
                     vs.append("%s %s { %s }%s" % (a, v.name, fs, d))
             out.append("pub enum %s { %s }" % (self.name, ", ".join(vs)))
+        if macro_tys is not None:
+            params = ", ".join("$t%d:ty" % i for i in range(len(macro_tys)))
+            body = "\n".join(out)
+            out = ["macro_rules! mk_%s { (%s) => {\n%s\n} }" % (self.name, params, body), "mk_%s!(%s);" % (self.name, ", ".join(macro_tys))]
         if not bare:
             out += self.extra_items
         return "\n".join(out)
@@ -481,10 +493,17 @@ def noise_field_meta(rng, trait, f, shape):
 NOISE_OVERRIDE = None      # C15: force the set of additional traits (None = use the caller's choice)
 
 
+VIA_MACRO_P = 0.15
+
+
 def finalize_attrs(rng, td, noise=()):
     """Compose each position's metas into #[educe(...)] attributes: one list or several stacked
     attributes, other educed traits' attributes before/after, plain attributes interleaved."""
     srng = random.Random(rng.random())             # type spellings: independent of the noise traits chosen below
+    # now and then the definition is the output of a macro_rules! macro whose `$t:ty` fragments are the field types: the
+    # derive then sees every field type inside a None-delimited group (syn::Type::Group)
+    if not hasattr(td, "via_macro"):
+        td.via_macro = srng.random() < VIA_MACRO_P and td.kind != "union" and not getattr(td, "no_macro", False)
     if NOISE_OVERRIDE is not None:
         present = set(re.findall(r"(?:^|,)\s*([A-Z][A-Za-z]*)", ",".join(re.sub(r"\([^()]*(?:\([^()]*\)[^()]*)*\)", "", t) for t in td.traits)))
         noise = [t for t in NOISE_OVERRIDE if t not in present and not (t in ("PartialEq", "Hash") and td.kind == "union")]
